@@ -229,8 +229,25 @@ def pub_name(f):
 
 
 def site_name(s):
+    """rule-stable name of a write site; a target rooted in a plain local is named by its ordinal among the
+    local-rooted sites of the same function and kind, so renaming the local does not change the key"""
     f = s.fi
-    return f"{pub_name(f)}:{s.kind.split('(')[0].strip()}:{s.target_text}"
+    kind = s.kind.split('(')[0].strip()
+    root = s.target_text.split(".")[0].split("[")[0].strip()
+    top = f
+    params = set()
+    while top is not None:
+        params |= set(top.params)
+        top = top.parent
+    if root in params or root in ("self", "cls") or not root.isidentifier() or root in f.module.defs or root in f.module.imports:
+        return f"{pub_name(f)}:{kind}:{s.target_text}"
+    key = (id(f.node), kind)
+    order = _LOCAL_ORDINALS.setdefault(key, {})
+    n = order.setdefault((getattr(s.node, "lineno", 0), getattr(s.node, "col_offset", 0)), len(order) + 1)
+    return f"{pub_name(f)}:{kind}:local#{n}"
+
+
+_LOCAL_ORDINALS = {}
 
 
 def classify_site(idx, rep, own, s, counts):
